@@ -38,7 +38,7 @@ static void snapshot(std::string& o, FSM::Instance& fsm) {
 	o += ",\"prev\":"; jtransitions(o, fsm.previousTransitions());
 	o += ",\"tt\":"; jarr(o, N, [&](int s) { const hfsm2::Short t = core.transitionTargets[s]; jint(o, t == hfsm2::INVALID_SHORT ? 0 : t + 1); });
 	o += ",\"last\":"; jarr(o, N, [&](int s) {
-		if (!fsm.isActive()) { jint(o, 0); return; }
+		if (!fsm.isActive((hfsm2::StateID) 0)) { jint(o, 0); return; }
 		const auto* t = fsm.lastTransitionTo((hfsm2::StateID) s);
 		jint(o, t ? (long) (t - &fsm.previousTransitions()[0]) + 1 : 0); });
 #else
@@ -86,7 +86,7 @@ static void snapshot(std::string& o, FSM::Instance& fsm) {
 	o += ",\"pe\":";  jint(o, maskOf([&](int s) { return fsm.isPendingEnter ((hfsm2::StateID) s); }));
 	o += ",\"px\":";  jint(o, maskOf([&](int s) { return fsm.isPendingExit  ((hfsm2::StateID) s); }));
 	o += ",\"pc\":";  jint(o, maskOf([&](int s) { return fsm.isPendingChange((hfsm2::StateID) s); }));
-	o += ",\"on\":";  o += fsm.isActive() ? "true" : "false";
+	o += ",\"on\":";  o += fsm.isActive((hfsm2::StateID) 0) ? "true" : "false";
 	o += '}';
 }
 
@@ -177,7 +177,7 @@ static void apiCall(Slot& sl, int slotId, const std::string& label, bool logOn, 
 }
 
 template <typename TPolicy> struct ImmWith {
-	static void go(FSM::Instance& fsm, int k, hfsm2::StateID d, int p) {
+	template <typename F> static void go(F& fsm, int k, hfsm2::StateID d, int p) {
 		const typename TPolicy::Type v = TPolicy::make(p);
 		switch (k) { case 0: fsm.immediateChangeWith(d, v); break; case 1: fsm.immediateRestartWith(d, v); break; case 2: fsm.immediateResumeWith(d, v); break; case 3: fsm.immediateSelectWith(d, v); break;
 #ifdef HFSM2_ENABLE_UTILITY_THEORY
@@ -186,7 +186,7 @@ template <typename TPolicy> struct ImmWith {
 			default: break; }
 	}
 };
-template <> struct ImmWith<void> { static void go(FSM::Instance&, int, hfsm2::StateID, int) {} };
+template <> struct ImmWith<void> { template <typename F> static void go(F&, int, hfsm2::StateID, int) {} };
 
 static void doImmediate(FSM::Instance& fsm, int k, int d1, int p) {
 	const hfsm2::StateID d = (hfsm2::StateID) (d1 - 1);
